@@ -22,7 +22,19 @@ export CARGO_NET_OFFLINE=true
 mkdir -p run
 H=harness/target/debug/tw-harness
 D=lean/.lake/build/bin/twdrv
-if [ ! -x "$H" ] || [ ! -x "$D" ]; then echo "MIRI-VERDICT not run: build first (./check C19 quick)"; exit 2; fi
+if [ ! -x "$H" ] || [ ! -x "$D" ]; then
+  # (./check calls this before its own harness build step: build what is missing)
+  python3 -c "
+import sys
+sys.path.insert(0, 'tools')
+import vlib
+vlib.gen_sources()
+vlib.extract()
+vlib.lake_build(['twdrv'])
+vlib.cargo_build()
+" > run/miri.build.log 2>&1
+fi
+if [ ! -x "$H" ] || [ ! -x "$D" ]; then echo "MIRI-VERDICT not run: native harness or driver missing (see run/miri.build.log)"; exit 2; fi
 OTHERS="packer huffman packet6 packet7 snap teehist demo demohl datafile browse gamenet recv snapmgr snapmgrc conn6 conn7 net"
 DOMS="buffer $OTHERS"
 $H gen buffer miri "$SEED" > run/miri.buffer.req || exit 2
